@@ -145,6 +145,11 @@ def stepLine (st : St) (line : String) : St × String :=
     let mag := overlapVec ⟨I omin, o0.map absQ⟩ ⟨I imin, inp.map absQ⟩ z (H offset) (I assign != 0)
     let extra : Rat := if I assign != 0 then 0 else (maxAbs o0 + maxAbs inp) * (1 + 1 / z)
     let edge : Rat := 16 * u24 * maxAbs inp * (1 + 1 / z)   -- box edges are evaluated with a few float operations
+    -- model-internal cross-check: the transcribed loops compute the overlap specification (up to the float rounding of
+    -- 1/zoom and of `x1 - offset`, and the 1e-5 rule of the stretching branch)
+    let spec := overlapSpecVec (I omin) o0.length ⟨I imin, inp⟩ z (H offset)
+    let specBad := I assign != 0 && (res.vals.zip spec).any fun (v, w) => absQ (v - w) > (2 / 100000 : Rat) * maxAbs inp * (1 + 1 / z)
+    if specBad then (st, "SPEC-MISMATCH") else
     (st, " ".intercalate ((res.vals.zip mag.vals).map fun (v, m) => fq v (64 * u24 * (max (absQ v) (absQ m) + extra) + edge + pow2 (-100))))
   | "ovit" :: onlyAdd :: assign :: "|" :: rest =>
     let (oc, rest) := splitBar rest
@@ -156,6 +161,14 @@ def stepLine (st : St) (line : String) : St × String :=
     let o0 := (o0.map H).toArray
     let res := overlapIter o0 oc inp ic (I onlyAdd != 0) (I assign != 0)
     let mag := overlapIter (o0.map absQ) oc (inp.map absQ) ic (I onlyAdd != 0) (I assign != 0)
+    -- model-internal cross-check against the specification (the loop drops overlaps ≤ epsilon = 1e-4 of the mean box size);
+    -- not when all input lies left of the output: the source then returns without touching the output
+    let spec := overlapSpecIter oc inp ic
+    let width : Rat := (oc[oc.size - 1]! - oc[0]!) + (ic[ic.size - 1]! - ic[0]!)
+    let touched := inp.size > 0 && o0.size > 0 && ic[ic.size - 1]! > oc[0]!
+    let specBad := I onlyAdd == 0 && I assign != 0 && touched &&
+      (res.toList.zip spec).any fun (v, w) => absQ (v - w) > (1 / 1000 : Rat) * maxAbs inp.toList * width
+    if specBad then (st, "SPEC-MISMATCH") else
     (st, " ".intercalate ((res.toList.zip mag.toList).map fun (v, m) => fq v (32 * u24 * (max (absQ v) (absQ m)) + pow2 (-100))))
   | "zoom" :: variant :: opt :: "|" :: rest =>
     let (gi, rest) := splitBar rest
@@ -204,6 +217,45 @@ def stepLine (st : St) (line : String) : St × String :=
         let ext (lo : Int) (k : Nat) : Rat := ((lo.natAbs + k : Nat) : Rat)
         let tol (v o c m e : Rat) : Rat := 8 * n * u24 * (v * (max m e / absQ s) * (1 + sa / absQ s) + absQ o + absQ c) + pow2 (-100)
         (st, s!"{fq cz (tol g.vz g.oz cz mz (ext g.zmin g.nz * sa))} {fq cy (tol g.vy g.oy cy my (ext g.ymin g.ny * sa))} {fq cx (tol g.vx g.ox cx mx (ext g.xmin g.nx * sa))}")
+  | "invssrb" :: minTof :: maxTof :: "|" :: rest =>
+    let (s3, rest) := splitBar rest
+    let (s4, cvals) := splitBar rest
+    match s3, s4 with
+    | [seg3], _ :: segs4 =>
+      let sg3 := parseSeg seg3
+      let ms : List Rat := (irange 0 (sg3.numAx - 1)).map fun a => ((sg3.m4 a : Int) : Rat)
+      let nTof := (I maxTof - I minTof + 1).toNat
+      let n3 := sg3.numAx.toNat
+      let c := (cvals.map H).toArray          -- index k * n3 + a
+      let outs : List (Option (List String)) := (segs4.map parseSeg).flatMap fun sg =>
+        (irange 0 (sg.numAx - 1)).map fun ax =>
+          match inverseSsrbWeights ms ((sg.m4 ax : Int) : Rat) (1 / 10000) with
+          | none => none
+          | some ws => some ((List.range nTof).map fun k =>
+              let v := ws.foldl (fun acc (aw : Nat × Rat) => acc + aw.2 * c.getD (k * n3 + aw.1) 0) 0
+              let m := ws.foldl (fun acc (aw : Nat × Rat) => acc + aw.2 * absQ (c.getD (k * n3 + aw.1) 0)) 0
+              fq v (16 * u24 * m + pow2 (-100)))
+      if outs.any Option.isNone then (st, "err")
+      else (st, " ".intercalate (outs.flatMap fun o => o.getD []))
+    | _, _ => (st, "bad-op")
+  | "ext" :: segnum :: views :: "|" :: rest =>
+    let (dims, rest) := splitBar rest
+    let (ext, vals) := splitBar rest
+    match dims, ext with
+    | [a0, v0, t0, na, nv, nt], [ve, ae, te] =>
+      let na := (I na).toNat
+      let nv := (I nv).toNat
+      let nt := (I nt).toNat
+      let q := (vals.map H)
+      let d : Array (Array (Array Rat)) := ((chunks (nv * nt) na q).map fun pl => ((chunks nt nv pl).map List.toArray).toArray).toArray
+      let seg : Arr3 := { a0 := I a0, v0 := I v0, t0 := I t0, d := d }
+      let r := extendSegment seg na nv nt (I ve) (I ae) (I te) (extendMode (I views) (I segnum))
+      let all := r.d.toList.flatMap fun pl => pl.toList.flatMap fun row => row.toList
+      let sz0 := r.d.size
+      let sz1 := (r.d.getD 0 #[]).size
+      let sz2 := ((r.d.getD 0 #[]).getD 0 #[]).size
+      (st, s!"{r.a0} {r.v0} {r.t0} {sz0} {sz1} {sz2} |" ++ String.join (all.map fun v => " " ++ fq v 0))
+    | _, _ => (st, "bad-op")
   | _ => (st, "bad-op")
 
 partial def loop (h : IO.FS.Stream) (st : St) : IO Unit := do
